@@ -408,6 +408,7 @@ func TestCheck(t *testing.T) {
 	bubble.Quiet()
 	r := report.Start(t, "C05")
 	defer r.Finish()
+	bubble.WatchDeadlocks(3, func(frame, dump string) { r.DeadlockVerdict("c05", frame, dump) })
 	bubble.SetT(t)
 
 	if h := os.Getenv("VERIF_HIST"); h != "" { // debugging aid: VERIF_HIST=epidemic:submit,up_dest,...
